@@ -784,7 +784,7 @@ def values_of_correct_type_table(ck, repo):
 
 def cycle_rule_terms(ck, repo):
     """E13: the fragment-cycle rule interpreted on every spread graph over three fragments (each fragment spreading any subset of
-    {A, B, C, an undefined name}, once or twice, directly or inside a field's sub-selection; the quick tier keeps the twice/nested
+    {A, B, C, an undefined name}, once or twice, directly or inside a field's or an inline fragment's sub-selection; the quick tier keeps the twice/nested
     forms for graphs with at most one spread per fragment): it reports exactly the graphs in
     which a fragment reaches itself - a fragment spread twice, a sub-fragment shared by two fragments (a DAG) and undefined
     targets are not cycles - however the current path is kept (a list pushed and popped, an immutable tuple handed down)."""
@@ -810,7 +810,7 @@ def cycle_rule_terms(ck, repo):
         # the rule starts from every fragment with an empty path: a fragment reaches itself iff some start revisits a name on its path
         return any(dfs(x, ()) for x in names)
 
-    variants = ("plain", "twice", "nested")
+    variants = ("plain", "twice", "nested", "inline")
     for combo in _it.product(subsets, repeat=3):
         graph = dict(zip(names, combo))
         want = cyclic(graph)
@@ -824,6 +824,8 @@ def cycle_rule_terms(ck, repo):
                     if variant == "nested":
                         sels.append(RecV("FieldNode", name=RecV("NameNode", value="f", _strict=True),
                                          selection_set=RecV("SelectionSetNode", selections=[sp], _strict=True), _label="f{...}", _strict=True))
+                    elif variant == "inline":
+                        sels.append(RecV("InlineFragmentNode", type_condition=None, selection_set=RecV("SelectionSetNode", selections=[sp], _strict=True), _label="...{...}", _strict=True))
                     else:
                         sels.append(sp)
                         if variant == "twice":
